@@ -104,9 +104,9 @@ func buildHistPool(seed uint64, big bool) *histPool {
 
 func (p *propC08) Prepare(seed uint64, tier string) int {
 	p.seed, p.tier = seed, tier
-	p.pool = buildHistPool(seed, tier == "thorough")
+	p.pool = buildHistPool(seed, isThorough(tier))
 	p.count = 1600
-	if tier == "thorough" {
+	if isThorough(tier) {
 		p.count = 40000
 	}
 	return p.count
